@@ -50,7 +50,6 @@ CFG = dict(
         "caller-owned slices/maps handed to NewMesh/Set*/SetFloatNData and the slice returned by Materials() are the caller's to leave alone (the harness never mutates them)",
         "concurrent use of one mesh from several goroutines is outside this property",
         "that each Go function belongs to the class it is modelled by is corresponded (sharing graph + value snapshots on generated histories), not proved from the Go source",
-        "the pointed-to modeling.Material structs are compared by pointer identity and name only",
     ],
     assumptions=["Go's append writes in place iff len+k <= cap and otherwise returns a fresh array (growth policy arbitrary)"],
     manifest=dict(
